@@ -10,7 +10,7 @@ from ..draw import composite
 
 RULE = ("(a) tokenizer: ALL strings of length <= k over the 24-symbol lexical alphabet (k=3 quick, 4 thorough), Hypothesis lexeme soups, long "
         "runs of one unmatched character / splice / quote; oracle: list(Lexer(file)) returns - any exception or a step-budget overrun is a "
-        "violation.  (b) pipeline, under a .c and a .h name: generated conforming/violating programs cut at lexeme boundaries (prefixes) and "
+        "violation.  (b) pipeline, under a .c and a .h name: ALL strings of length <= k over a 12-symbol alphabet as whole files; generated conforming/violating programs cut at lexeme boundaries (prefixes) and "
         "damaged by <= 2 lexeme edits (delete / insert from a C vocabulary / replace / swap); raw-byte files (Latin-1, BOM, NUL, CR-LF) through "
         "the CLI; oracle: a verdict or exactly the controlled fatal error (CParsingError), never another exception, never more primitive steps "
         "than B(n)=2e5+400n^2; CLI sample: exit in {0,1}, no traceback, fatal block on fatal.  (c, thorough) coverage-guided libFuzzer campaigns "
@@ -58,6 +58,19 @@ def shard_lex_exhaustive(n, lo, hi):
         t = soup.nth_string(soup.ALPHA24, n, idx)
         camp.case(t, len(classes_of(t)) >= 2)
         lex_one(camp, t, "exhaustive")
+    return camp
+
+
+def shard_pipe_exhaustive(n, lo, hi):
+    """every string of length n over the 12-symbol alphabet through the WHOLE pipeline, as a source file and as a header
+    (very short files reach the end-of-file paths of the rules: no final newline, a last line of blanks, a lone quote …)"""
+    camp = core.Campaign()
+    for idx in range(lo, hi):
+        t = soup.nth_string(soup.ALPHA12, n, idx)
+        for name in ("x.c", "x.h"):
+            camp.case(name + "\0" + t, len(classes_of(t)) >= 2)
+            camp.count("pipeline-exhaustive")
+            pipe_one(camp, name, t, "pipeline-exhaustive")
     return camp
 
 
@@ -109,6 +122,7 @@ def pipe_one(camp, name, text, origin, matched_hint=True):
     import contextlib
     import io
     case = {"mode": "pipe", "name": name, "text": text, "origin": origin}
+    core.note_current(name, text)
     f = File(name, text)
     buf = io.StringIO()
     ntok = 0
@@ -399,6 +413,12 @@ def run(pid, tier, seed):
         chunk = max(1, -(-total // 16))
         for lo in range(0, total, chunk):
             jobs.append(dict(fn=shard_lex_exhaustive, kw=dict(n=n, lo=lo, hi=min(total, lo + chunk))))
+    for n in range(1, k + 1):
+        total = 12 ** n
+        sizes["pipeline len=%d" % n] = total
+        chunk = max(1, -(-total // 16))
+        for lo in range(0, total, chunk):
+            jobs.append(dict(fn=shard_pipe_exhaustive, kw=dict(n=n, lo=lo, hi=min(total, lo + chunk))))
     for s in range(8):
         jobs.append(dict(fn=shard_lex_soup, kw=dict(seed=core.seed_of(seed, s, 5), n=nsoup)))
     for s in range(16):
